@@ -20,6 +20,14 @@ def evalC16 (ins outs : List String) : Verdict :=
       else .ok "knowngossip"
     | some s, _, _, _, _ => .prop "c16_not_wedged" s!"knowngossip: start={s}"
     | _, _, _, _, _ => .bad "C16 knowngossip fields"
+  | some "emptyinit" =>
+    -- first tail selection over an empty store with the tail request failing once: an error, not a panic, and no wedge
+    match kvNat? ins "sfh", kvNat? ins "n", kv? outs "r1", kvNat? outs "stored1", kv? outs "r2", kvNat? outs "tail" with
+    | some sfh, some n, some r1, some s1, some r2, some tl =>
+      if r1 == "panic" || r2 == "panic" then .prop "c16_no_panic" s!"first tail selection over an empty store: r1={r1} r2={r2}" else
+      if r1 != "err" || s1 != 0 then .prop "c16_not_wedged" s!"failing tail request: r1={r1}, stored height {s1}" else
+      if r2 != "ok" || tl == 0 || tl > n || (sfh != 0 && tl != sfh) then .prop "c16_not_wedged" s!"after the getter recovered: r2={r2} tail={tl}" else .ok "emptyinit"
+    | _, _, _, _, _, _ => .bad "C16 emptyinit fields"
   | some "estimate" =>
     match kvInt? ins "tp", kvInt? ins "bt", kvNat? ins "headH", kv? outs "res" with
     | some tp, some bt, some headH, some res =>
